@@ -435,7 +435,7 @@ def confirm_livelock(r):
     if r.remake is not None:
         again = r.remake()          # stateless exploration: the same choice prefix again
     elif r.chooser is not None:
-        again = Run(r.cfg, r.fired, fallback=False, pre=r.pre, post=r.post)
+        again = Run(r.cfg, r.fired, fallback=True, pre=r.pre, post=r.post)
     else:
         again = Run(r.cfg, r.script0, fallback=r.fallback, timed=r.timed0, pre=r.pre, post=r.post)
     again.watchdog_s = 20.0
